@@ -33,6 +33,13 @@ TStep ==
   /\ SameContent(tr, "auto-detected read", tr.readauto, tr.orig)
   /\ ChkT(tr, 1, "second write/read raised: " \o tr.rexc2, tr.rres2 = "ok")
   /\ SameContent(tr, "second write/read cycle", tr.read2, tr.read1)
+  \* the same text with scale factors other than 1 in its header: values read are
+  \* raw x factor (the driver divides by the factor, exactly), in the first
+  \* read and after a further write/read cycle alike
+  /\ (tr.scaled.h =>
+        /\ ChkT(tr, 1, "reading / rewriting the text with scale factors raised: " \o tr.scaled.exc, tr.scaled.res = "ok")
+        /\ SameContent(tr, "read of the text with scale factors (values / factor)", tr.sread1, tr.orig)
+        /\ SameContent(tr, "write/read cycle after a scaled read (values / factor)", tr.sread2, tr.orig))
   /\ TrAccept(tr)
 TSpec == TInit /\ [][TStep]_tvars
 =================================================================================
